@@ -330,6 +330,10 @@ def run_index_slice(P, R, log_dir):
     selfv = exi.sym_value("IrEmitter", "self")
     o_ = exi.sym_value("TypedExpr", "o")
     i_ = exi.sym_value("TypedExpr", "i")
+    # an integer literal in the IR is never i64::MIN (the lexer produces 0..=i64::MAX; a leading minus is a separate node),
+    # so `n.abs()` in the negative-index fallback cannot overflow
+    i_kind = [x[0] for x in td.variants[0][1]].index("kind")
+    exi.enc.side.append(f"(> {i_.child(None, i_kind).child('Int', 0).term} (- 9223372036854775808))")
     outs_i = exi.run(fi[0], [selfv, o_, i_])
     # ---- slice
     exs = atom_executor(P, R)
